@@ -258,6 +258,9 @@ type delivery struct {
 	module.Delivery
 	// Recipient addresses this delivery object is used for, original values (not modified by RewriteRcpt).
 	recipients []string
+	// Set by BodyNonAtomic if the message body was not passed to the delivery
+	// or it failed to accept it. Such delivery is aborted by Commit.
+	bodyFailed bool
 }
 
 type msgpipelineDelivery struct {
@@ -451,6 +454,7 @@ func (sc statusCollector) SetStatus(rcptTo string, err error) {
 func (dd *msgpipelineDelivery) BodyNonAtomic(ctx context.Context, c module.StatusCollector, header textproto.Header, body buffer.Buffer) {
 	setStatusAll := func(err error) {
 		for _, delivery := range dd.deliveries {
+			delivery.bodyFailed = true
 			for _, rcpt := range delivery.recipients {
 				c.SetStatus(rcpt, err)
 			}
@@ -515,6 +519,7 @@ func (dd *msgpipelineDelivery) BodyNonAtomic(ctx context.Context, c module.Statu
 		}
 
 		if err := delivery.Body(ctx, header, body); err != nil {
+			delivery.bodyFailed = true
 			for _, rcpt := range delivery.recipients {
 				c.SetStatus(rcpt, err)
 			}
@@ -527,8 +532,10 @@ func (dd msgpipelineDelivery) Commit(ctx context.Context) error {
 
 	var commitErr error
 	for _, delivery := range dd.deliveries {
-		if commitErr != nil {
+		if commitErr != nil || delivery.bodyFailed {
 			// No point in Committing remaining deliveries, everything is broken already.
+			// Also, callers of BodyNonAtomic always call Commit, the delivery
+			// that did not get the message body should not be committed.
 			// Abort them so they are not left open.
 			if err := delivery.Abort(ctx); err != nil {
 				dd.log.Debugf("delivery.Abort failure, Delivery object = %T: %v", delivery, err)
